@@ -541,13 +541,31 @@ tl::expected<std::string, errors> canonicalize_opaque_pathname(
   // Set dummyURL's path to the empty string.
   // Let parseResult be the result of running URL parsing given value with
   // dummyURL as url and opaque path state as state override.
-  if (auto url =
-          ada::parse<url_aggregator>("fake:" + std::string(input), nullptr)) {
-    // Return the result of URL path serializing dummyURL.
-    return std::string(url->get_pathname());
+  //
+  // Parsing "fake:" + value as a whole URL is not the same thing: a value that
+  // starts with "/" would be read in path (or authority) state, so that
+  // "//x/y" lost "//x", dot segments were removed, spaces were encoded and an
+  // invalid authority failed; and the trailing C0 control or space of the
+  // value was trimmed. With a state override the parser only removes ASCII tab
+  // and newline, and the opaque path state appends every code point up to the
+  // first '?' or '#' using the C0 control percent-encode set.
+  std::string value(input);
+  helpers::remove_ascii_tab_or_newline(value);
+  std::string_view view(value);
+  const size_t end = view.find_first_of("?#");
+  if (end != std::string_view::npos) {
+    view = view.substr(0, end);
+    // A space right in front of the '?' or '#' is appended as "%20".
+    if (view.ends_with(' ')) {
+      return unicode::percent_encode(
+                 view.substr(0, view.size() - 1),
+                 character_sets::C0_CONTROL_PERCENT_ENCODE) +
+             "%20";
+    }
   }
-  // If parseResult is failure, then throw a TypeError.
-  return tl::unexpected(errors::type_error);
+  // Return the result of URL path serializing dummyURL.
+  return unicode::percent_encode(view,
+                                 character_sets::C0_CONTROL_PERCENT_ENCODE);
 }
 
 tl::expected<std::string, errors> canonicalize_search(std::string_view input) {
